@@ -181,6 +181,10 @@ def predeclared_like(name):
     return name in WGSL_BUILTIN_FUNCTIONS or name in WGSL_TYPES or name.startswith("texture")
 
 
+# `phony` is the name the front end gives to discarded values (`_ = e;`); the backends do not bind named
+# expressions called phony to a variable, so `let phony = e;` legitimately changes the shape of the output.
+EXCLUDED_TARGETS = {"phony"}
+
 UNICODE_IDENTS = ["é", "été", "π", "Δx", "変数", "a変", "𝒳", "𝒳1", "ß_", "_é_", "é_é", "éé", "ǅz", "naïve", "données_1", "переменная", "变量2"]
 
 
@@ -199,12 +203,19 @@ CONTROL = set("return case default else do break continue discard if while for s
 # All three are keywords of the language in question, so a user entity can never be spelled like them THERE;
 # in the other languages they are ordinary identifiers, hence the set is switched per backend (set_backend).
 GROUP_WORDS = {"glsl": ("layout",), "hlsl": ("register", "packoffset"), "msl": ()}
+# statement heads that are not declarations; again only words that are keywords of the language in question
+NONDECL_HEADS = {"glsl": ("precision", "using", "typedef"), "hlsl": ("using", "typedef"), "msl": ("using", "typedef")}
+NOT_CONTROL = {"glsl": (), "hlsl": (), "msl": ("discard",)}          # `discard` is an ordinary identifier in C++
 _group_words = ("layout", "register", "packoffset")
+_nondecl_heads = ("using", "typedef", "precision")
+_control = CONTROL
 
 
 def set_backend(b):
-    global _group_words
+    global _group_words, _nondecl_heads, _control
     _group_words = GROUP_WORDS[b]
+    _nondecl_heads = NONDECL_HEADS[b]
+    _control = CONTROL - set(NOT_CONTROL[b])
 
 
 def id_map(base_toks, new_toks):
@@ -385,7 +396,7 @@ def declared_pos(head):
     Returns the position (in head) of the declared name or None.  A declaration has a name directly
     after the end of a type (an identifier, '>', '&', '*', ']' or ')' of a layout(...) / attribute group)
     before any of  =  .  :   and does not start with a control keyword."""
-    if not head or head[0][0] != "id" or head[0][1] in CONTROL or head[0][1] in ("using", "typedef", "precision"):
+    if not head or head[0][0] != "id" or head[0][1] in _control or head[0][1] in _nondecl_heads:
         return None
     i = 0
     n = len(head)
@@ -410,7 +421,7 @@ def declared_pos(head):
             continue
         if k == "op" and t in ("=", ".", ":"):
             break
-        if k == "id" and prev is not None and ((prev[0] == "id" and prev[1] not in CONTROL) or
+        if k == "id" and prev is not None and ((prev[0] == "id" and prev[1] not in _control) or
                                                prev in (("op", ">"), ("op", "&"), ("op", "*"), ("op", ")"), ("op", "]"))):
             name = i
         prev = (k, t)
@@ -545,6 +556,7 @@ def load_spec(coq_dir):
     h = defs("SpecHlsl.v")
     out["hlsl"] = h["hlsl_spec_keywords"] + h["hlsl_spec_reserved"]
     out["hlsl_ci"] = h["hlsl_spec_ci"]
+    out["hlsl_sized"] = h["hlsl_sized_types"]
     m = defs("SpecMsl.v")
     out["msl"] = m["cpp14_keywords"] + m["cpp14_alt_tokens"] + m["metal_words"]
     g = defs("SpecGlsl.v")
@@ -560,6 +572,8 @@ def reserved_reason(backend, name, spec):
         return "non-ascii"          # HLSL / GLSL identifiers are [A-Za-z_][A-Za-z0-9_]*
     if backend == "hlsl" and name.lower() in spec["_set_hlsl_ci"]:
         return "case-insensitive-keyword"
+    if backend == "hlsl" and name in spec["_set_hlsl_sized"]:
+        return "sized-type-name"
     if backend == "glsl":
         if name.startswith("gl_"):
             return "gl_-prefix"
@@ -577,6 +591,7 @@ def prepare_spec(spec):
     for b in ("hlsl", "msl", "glsl"):
         spec["_set_" + b] = set(spec[b])
     spec["_set_hlsl_ci"] = set(w.lower() for w in spec["hlsl_ci"])
+    spec["_set_hlsl_sized"] = set(spec["hlsl_sized"])
     return spec
 
 
